@@ -157,6 +157,12 @@ func collectImportsFromType(t types.Type, pkg string, imports map[string]*Import
 				referencedImports[pkgPath] = newImp
 			}
 		}
+		// The type arguments of an instantiated generic type are spelled out too
+		if typeArgs := typ.TypeArgs(); typeArgs != nil {
+			for i := 0; i < typeArgs.Len(); i++ {
+				collectImportsFromType(typeArgs.At(i), pkg, imports, referencedImports, varPool)
+			}
+		}
 	case *types.Alias:
 		if objPkg := typ.Obj().Pkg(); objPkg != nil && objPkg.Path() != pkg {
 			pkgPath := objPkg.Path()
